@@ -249,7 +249,7 @@ class Session:
             self._register(op["f"], "function", function)
 
     def _run_detectors(
-        self, tealer: Any, function: Any, runs: Optional[List[str]], ev: Dict[str, Any]
+        self, tealer: Any, function: Any, runs: Optional[List[str]], ev: Dict[str, Any], isolate: bool = False
     ) -> None:
         full = ev["i"] in self.want_full
         with Quiet():
@@ -260,7 +260,9 @@ class Session:
         fullobs: Dict[str, Any] = {}
         by_name = {d.NAME: d for d in tealer.detectors}
         if runs is None:
+            ev["failed_det"] = "*"
             results = tealer.run_detectors()
+            ev.pop("failed_det", None)
             with Quiet():
                 for d, res in zip(tealer.detectors, results):
                     o = observe.output_obs(res)
@@ -273,7 +275,19 @@ class Session:
             for name in runs:
                 if name not in by_name:
                     continue
-                res = by_name[name].detect()
+                ev["failed_det"] = name  # removed again when the detector returns
+                if isolate:
+                    # reference mode: every detector gets a verdict of its own, a failing one must
+                    # not take the others' references with it
+                    try:
+                        res = by_name[name].detect()
+                    except Exception as e:  # noqa
+                        dets.append([name, "ERR", [type(e).__name__, observe.norm_msg(str(e), self.scratch)]])
+                        ev.pop("failed_det", None)
+                        continue
+                else:
+                    res = by_name[name].detect()
+                ev.pop("failed_det", None)
                 with Quiet():
                     o = observe.output_obs(res)
                     dets.append([name, observe.digest(o)])
@@ -283,6 +297,7 @@ class Session:
                         ctx_after.append(observe.digest(observe.function_contexts(function)))
         ev["obs"]["dets"] = dets
         ev["obs"]["ctx_after"] = ctx_after
+        ev.pop("failed_det", None)
         if full:
             ev["full"] = {"dets": fullobs}
             if function is not None:
@@ -304,7 +319,7 @@ class Session:
         self._side_printers(tealer, op, ev)
         for name in op.get("dets", []):
             tealer.register_detector(self.detectors[name])
-        self._run_detectors(tealer, function, op.get("runs"), ev)
+        self._run_detectors(tealer, function, op.get("runs"), ev, bool(op.get("isolate")))
 
     def _side_printers(self, tealer: Any, op: Dict[str, Any], ev: Dict[str, Any]) -> None:
         """Printers (and the regex tool) run on the very same Tealer/Teal object before anything is
